@@ -901,6 +901,8 @@ def m_dict(it, args, kw):
     d = {}
     if args:
         src = args[0]
+        if isinstance(src, Abstract) and hasattr(src, "p_asdict"):
+            src = src.p_asdict(it)
         if isinstance(src, dict) or hasattr(src, "keys"):
             for k in src.keys():
                 d[k] = src[k]
@@ -978,11 +980,67 @@ def m_zip(it, args, kw):
     return list(zip(*seqs))
 
 
+def sort_keys(it, items, key):
+    """the keys of the items when they are concrete although the items are not (sorting requests by class name, pairs by their
+    first member ...): operator.attrgetter / itemgetter natively (plain attribute and index access), closures interpreted"""
+    import operator
+    keys = []
+    for x in items:
+        if key is None:
+            k = x
+        elif isinstance(key, (operator.attrgetter, operator.itemgetter)):
+            if isinstance(x, (Sym, Abstract, SObj)):
+                raise Unsupported("sort/group key of a symbolic item")
+            try:
+                k = key(x)
+            except Exception as ex:
+                raise Unsupported(f"sort/group key: {type(ex).__name__}")
+        else:
+            k = it.call(key, [x], {})
+        if not deep_concrete(k) or isinstance(k, (Sym, Abstract, SObj)):
+            raise Unsupported("symbolic sort/group key")
+        keys.append(k)
+    return keys
+
+
 def m_sorted(it, args, kw):
     items = it.iterate(args[0])
     if all(deep_concrete(x) for x in items) and not any(isinstance(v, C.Closure) for v in kw.values()):
         return it.native(sorted, [items], kw)
+    if set(kw) <= {"key", "reverse"} and kw.get("key") is not None and isinstance(kw.get("reverse", False), bool):
+        keys = sort_keys(it, items, kw["key"])
+        order = sorted(range(len(items)), key=lambda i: keys[i], reverse=kw.get("reverse", False))    # stable, like sorted()
+        return [items[i] for i in order]
     raise Unsupported("sorted on symbolic items")
+
+
+def lm_sort(it, lst, args, kw):
+    if not isinstance(lst, list):
+        raise Unsupported("sort of a symbolic list")
+    new = m_sorted(it, [list(lst)], kw)
+    lst[:] = new
+    return None
+
+
+def m_groupby(it, args, kw):
+    """itertools.groupby with concrete keys: [(key, [members])] - consecutive runs, like the real one"""
+    items = it.iterate(args[0])
+    key = args[1] if len(args) > 1 else kw.get("key")
+    keys = sort_keys(it, items, key)
+    out = []
+    for k, x in zip(keys, items):
+        if out and (out[-1][0] is k or out[-1][0] == k):
+            out[-1][1].append(x)
+        else:
+            out.append((k, [x]))
+    return out
+
+
+def m_chain_from_iterable(it, args, kw):
+    out = []
+    for sub in it.iterate(args[0]):
+        out.extend(it.iterate(sub))
+    return out
 
 
 def m_any(it, args, kw):
@@ -1342,6 +1400,13 @@ def sm_replace(it, s, args, kw):
         t = f(text_term(it, s), text_term(it, old), text_term(it, new))
         it.assume(tlen(t) >= 0)
         return SVal(str, t)
+    if isinstance(s, str) and isinstance(old, str) and old:
+        # a concrete text with a concrete pattern: split and re-join with the (possibly symbolic) replacement
+        parts = s.split(old)
+        out = to_sstr(parts[0])
+        for p_ in parts[1:]:
+            out = SStr(list(out.items) + list(to_sstr(new).items) + list(to_sstr(p_).items))
+        return out
     s = resolve(it, to_sstr(s)); old = resolve(it, to_sstr(old)); new = to_sstr(new)
     if len(old.items) != 1:
         raise Unsupported("replace with multi-char pattern on shaped string")
@@ -1530,8 +1595,10 @@ def install(it):
         B.print: m_print, B.ord: m_ord, B.chr: m_chr, B.format: m_format_builtin, B.locals: m_locals, B.next: m_next,
         math.copysign: m_copysign,
     })
-    import warnings
+    import warnings, itertools
     it.models[warnings.warn] = m_warn
+    it.models[itertools.groupby] = m_groupby
+    it.models[itertools.chain.from_iterable] = m_chain_from_iterable
     import xml.sax.saxutils as sx
     it.models[sx.unescape] = m_unescape
     from . import models_dec, models_dt, regex_match
@@ -1553,6 +1620,7 @@ def install(it):
     for name in ("append", "extend", "insert", "pop", "copy", "reverse", "clear"):
         it.methods[(list, name)] = native_container_method(name)
     it.methods[(list, "index")] = lm_index
+    it.methods[(list, "sort")] = lm_sort
     it.methods[(tuple, "index")] = lm_index
     it.methods[(list, "remove")] = lm_remove
     it.methods[(list, "count")] = lm_count
